@@ -227,16 +227,17 @@ def same_relation_rule(crate, prop, rule="C03.R4"):
     r.inst(edge="dependencies::Visit::visit -> Dependency::from_ty::<T>", present=ok)
     if not ok:
         r.fail(prop, "edge-missing Visit::visit -> Dependency::from_ty", "the dependency visitor does not record Dependency::from_ty::<T>()")
-    from rules.export_rules import walker_roles
+    from rules.export_rules import walker_roles, module_visit_types
     er = walker_roles(crate)[0]
-    ok = er is not None and any(fn_matches(t, r"TS::visit_dependencies$") for _, t in er.calls())
+    walked = module_visit_types(crate)
+    ok = er is not None and bool(walked)
     r.inst(edge="export_recursive -> <T as TS>::visit_dependencies", present=ok)
     if not ok:
         r.fail(prop, "edge-missing export_recursive -> visit_dependencies", "exported files are not driven by visit_dependencies")
     # the file written for T declares T::WithoutGenerics and imports what *that* type depends on (export_to_string ->
     # generate_imports::<T::WithoutGenerics>).  With `concrete(..)` its dependencies differ from T's, so the exporter has to walk
     # them as well, or the file imports something nobody wrote.
-    ok = er is not None and any(fn_matches(t, r"TS::visit_dependencies$") and "WithoutGenerics" in (t["fn"].get("args") or [""])[0] for _, t in er.calls())
+    ok = er is not None and any("WithoutGenerics" in a for _, _, _, a in walked)
     r.inst(edge="export_recursive -> <T::WithoutGenerics as TS>::visit_dependencies", present=ok)
     if not ok:
         r.fail(prop, "exporter-walks-other-relation-than-importer export_recursive",
